@@ -332,6 +332,15 @@ fn compile(
     let sparse_table: SparseScriptTable = {
         SparseScriptTable::from_fields(meta).map_err(|e| ctx.emitter.emit(e))?
     };
+    // The dense table is materialized entry by entry (and written out as such); a length in the billions
+    // can only be a mistake, and would abort on allocation long before anything is written.
+    const MAX_TABLE_LEN: u32 = 0x10000;
+    if sparse_table.table_len.value > MAX_TABLE_LEN {
+        return Err(ctx.emitter.emit(error!(
+            message("script table is too long"),
+            primary(sparse_table.table_len, "table length {} exceeds the maximum of {}", sparse_table.table_len.value, MAX_TABLE_LEN),
+        )));
+    }
     let dense_table = sparse_table.densify();
     let script_table_indices_by_name = get_script_table_indices_by_name(&dense_table);
 
